@@ -70,6 +70,10 @@ pub struct PortCase {
     /// the port's settings object reports no baud rate (split input/output speeds); the prior speed is then what `prior[0]` says
     #[serde(default)]
     pub hide_baud: bool,
+    /// the driver re-initialises the device on every settings write, which puts the read timeout back to a default of its
+    /// own (77.777 s): the timeout the constructor applies must be the one in force afterwards
+    #[serde(default)]
+    pub write_resets_timeout: bool,
 }
 
 struct NullBus;
@@ -111,6 +115,10 @@ pub fn check_port(c: &PortCase, st: &mut Stats) -> Result<(), String> {
         state.fail_budget = Some(1);
     }
     state.hide_baud = c.hide_baud;
+    const DRIVER_DEFAULT: Duration = Duration::from_millis(77_777);
+    if c.write_resets_timeout {
+        state.settings_write_resets_timeout = Some(DRIVER_DEFAULT);
+    }
     let port = TestPort::with_state(state);
     let h = port.handle();
     let timeout = Duration::from_millis(c.timeout_ms);
@@ -137,6 +145,20 @@ pub fn check_port(c: &PortCase, st: &mut Stats) -> Result<(), String> {
                 "after {name} the port (prior {prior:?}) is left at {:?}, not 19200/8/N/1/none",
                 s.settings
             ));
+        }
+        // the timeout in force at the end is what counts (a settings write may have reset it)
+        if c.write_resets_timeout {
+            match s.timeout {
+                Some(t) if c.entry % 3 == 0 && t == timeout => {}
+                Some(t) if c.entry % 3 != 0 && t != DRIVER_DEFAULT && !t.is_zero() => {}
+                other => {
+                    return Err(format!(
+                        "after {name} on a port whose settings writes reset the read timeout, the timeout in force is {other:?} (timeouts applied: {:?}, settings writes: {})",
+                        s.timeouts_set,
+                        s.settings_writes.len()
+                    ))
+                }
+            }
         }
         match s.timeouts_set.last() {
             None => return Err(format!("{name} did not apply a read timeout")),
@@ -194,14 +216,17 @@ fn run_product(ctx: &Ctx, part: &str) {
                 for fail in 0..5u8 {
                     let kinds: &[usize] = if fail == 0 { &[0] } else { &[0, 1, 2, 3, 4, 5] };
                     for &kind in kinds {
-                        for (transient, hide_baud) in [(false, false), (true, false), (false, true)] {
+                        for (transient, hide_baud, write_resets_timeout) in [(false, false, false), (true, false, false), (false, true, false), (false, false, true)] {
                             if transient && fail == 0 {
                                 continue;
                             }
                             if hide_baud && (kind != 0 || timeout_ms > 250) {
                                 continue;
                             }
-                            let c = PortCase { prior, entry, timeout_ms, fail, kind, transient, hide_baud };
+                            if write_resets_timeout && (fail != 0 || timeout_ms == 77_777) {
+                                continue;
+                            }
+                            let c = PortCase { prior, entry, timeout_ms, fail, kind, transient, hide_baud, write_resets_timeout };
                             check_port(&c, st).map_err(|m| (serde_json::to_value(&c).unwrap(), m))?;
                             n += 1;
                             if !is_target || fail != 0 {
